@@ -27,6 +27,28 @@ def key_functions(fb):
     return out
 
 
+CUTS = ("truncate", "split_at", "take", "take_while", "skip", "get", "get_unchecked", "chunks", "first", "last", "split_off", "drain", "nth")
+
+
+def truncations(fb, d):
+    """Operations in a key function (and its closures) that keep only a part of a string / byte sequence:
+    range indexing (`&x[..n]`), get(range), take(n), truncate, split_at ..."""
+    out = []
+    for bd in [d] + [c for c in fb.mir if c.startswith(d + "::{closure")]:
+        b = fb.mir[bd]
+        for bi, t in fb.calls_in(b):
+            f = t.get("fn", "")
+            o = t.get("orig", f)
+            nm = f.split("::")[-1]
+            recv_ty = fb.ty(b["locals"][t["args"][0]["p"]["l"]]["t"]) if t["args"] and "p" in t["args"][0] else ""
+            stringish = any(x in recv_ty for x in ("str", "String", "[u8]", "Vec<u8>", "Chars", "Bytes"))
+            if (o.endswith("ops::Index::index") or o.endswith("ops::IndexMut::index_mut") or "SliceIndex" in f) and any("Range" in fb.ty(i) for i in t.get("targs", [])):
+                out.append(("range index", t.get("ln")))
+            elif nm in CUTS and stringish:
+                out.append((nm, t.get("ln")))
+    return out
+
+
 def rule_coverage(chk, fb):
     ra = chk.rule("C05.a", "key covers every field: each content-key function reads (directly or through the keys it calls) every field of its struct, listed exceptions aside; a derived PartialEq counts as full coverage", floor=16)
     for d, adt in key_functions(fb):
@@ -94,8 +116,10 @@ def rule_coverage(chk, fb):
             continue
         specs = hirq.format_specs(h["body"])
         bad = [ln for o, ln in specs if o is None or (o & 4)]
-        chk.ob(rl, "%s::%s" % (adt.split("::")[-1], d.split("::")[-1]), not bad, where="%s:%s" % (h["file"], bad[0] if bad else h.get("line", "")),
-               detail="%d placeholder(s), with a precision: %d" % (len(specs), len(bad)))
+        # ... and no part of a value is cut off before it is digested / rendered
+        cuts = truncations(fb, d)
+        chk.ob(rl, "%s::%s" % (adt.split("::")[-1], d.split("::")[-1]), not bad and not cuts, where="%s:%s" % (h["file"], bad[0] if bad else (cuts[0][1] if cuts else h.get("line", ""))),
+               detail="%d placeholder(s), with a precision: %d; truncating operations: %s" % (len(specs), len(bad), [c[0] for c in cuts] or "none"))
     # which key function does each interning table use? (role: compared inside the scan loop of set_style)
     rb = chk.rule("C05.a.use", "each interning table compares with the full key: the scan loop of every component table's set_style compares the key function of the element type on both operands; the whole-style lookup compares Style values whose equality is derived over all fields", floor=5)
     for d, b in sorted(fb.mir.items()):
@@ -362,6 +386,35 @@ def _cond_fields(fb, fl, b, blocks, adt):
     return out
 
 
+def _loop_carried(b, l, loop_body):
+    """Is the value in local l (or a local it is copied / dereferenced into) re-assigned inside the loop?"""
+    group = {l}
+    changed = True
+    while changed:
+        changed = False
+        for bl in b["blocks"]:
+            for st in bl["s"]:
+                if st["k"] == "assign" and not st["lhs"].get("pr") and st["lhs"]["l"] not in group:
+                    rv = st["rv"]
+                    src = rv.get("op", {}).get("p", {}).get("l") if rv["k"] in ("use", "cast") else (rv["place"]["l"] if rv["k"] == "ref" else None)
+                    if src in group:
+                        group.add(st["lhs"]["l"])
+                        changed = True
+    for bi, bl in enumerate(b["blocks"]):
+        if bi not in loop_body:
+            continue
+        for st in bl["s"]:
+            if st["k"] == "assign" and not st["lhs"].get("pr") and st["lhs"]["l"] in group:
+                rv = st["rv"]
+                src = rv.get("op", {}).get("p", {}).get("l") if rv["k"] in ("use", "cast") else (rv["place"]["l"] if rv["k"] == "ref" else None)
+                if src not in group:
+                    return True
+        t = bl["t"]
+        if t["k"] == "call" and t.get("dest", {}).get("l") in group:
+            return True
+    return False
+
+
 def rule_run_merge(chk, fb):
     """Adjacent <col> entries are written as one run min..max carrying the attributes of the first: two columns may
     be merged only if everything that is written for the run was compared equal."""
@@ -430,6 +483,19 @@ def rule_run_merge(chk, fb):
             if any(a[0] == "call" and a[1].endswith("::eq") for a in at):
                 eq_blocks.append(x)
         compared = _cond_fields(fb, fl, b, eq_blocks, COL)
+        # the compared values are those of the CURRENT run head and candidate: they are computed inside the loop
+        loop_body = set()
+        for t_, h_ in cfg.back_edges():
+            nl = cfg.natural_loop(t_, h_)
+            if m in nl:
+                loop_body |= nl
+        stale = []
+        for x in eq_blocks:
+            for a in fl.atoms(b["blocks"][x]["t"]["op"]):
+                if a[0] == "call" and fb.mir.get(a[1], {}).get("self_ty") == COL and a[2] not in loop_body and not _loop_carried(b, b["blocks"][a[2]]["t"]["dest"]["l"], loop_body):
+                    stale.append("%s@%s:%s" % (a[1].split("::")[-1], b["file"], b["blocks"][a[2]]["t"].get("ln")))
+        chk.ob(r, "%s:merge compares current values" % fn, not stale, where=fb.loc(fn),
+               detail="operands of the merge tests are computed inside the loop" if not stale else "operand(s) computed once outside the loop (%s): after the first run they describe a column that is no longer the head of the run" % sorted(set(stale)))
         for f in sorted(written):
             where = "%s:%s" % (b["file"], b["blocks"][m]["t"].get("ln", b["line"]))
             chk.ob(r, "%s:merge requires equal `%s`" % (fn, f), f in compared, where=where,
